@@ -295,7 +295,27 @@ def check_pair(ctx, text, docs, rng):
         fl = {"r.guard": text, "d.json": docs}
         base = ctx.w.run({"k": "cli", "argv": ["validate", "-r", "{S}/r.guard", "-d", "{S}/d.json", "--structured", "-S", "none", "-o", "json"], "files": fl})
         if base.get("r") != "ok":
-            ctx.inconclusive("crash" if core.crash_signature(base) else "baseline-error")
+            if core.crash_signature(base) or base.get("code") is None:
+                ctx.inconclusive("crash")
+                return
+            # the evaluation ends in an error: every rendering and entry point must end the same way (no verdict, the same exit code)
+            ctx.res.counts["error_runs_compared"] += 1
+            for cfg, argv, stdin in (("s-yaml", ["validate", "-r", "{S}/r.guard", "-d", "{S}/d.json", "--structured", "-S", "none", "-o", "yaml"], ""),
+                                     ("s-junit", ["validate", "-r", "{S}/r.guard", "-d", "{S}/d.json", "--structured", "-S", "none", "-o", "junit"], ""),
+                                     ("s-sarif", ["validate", "-r", "{S}/r.guard", "-d", "{S}/d.json", "--structured", "-S", "none", "-o", "sarif"], ""),
+                                     ("plain", ["validate", "-r", "{S}/r.guard", "-d", "{S}/d.json"], ""),
+                                     ("plain-json-verbose", ["validate", "-r", "{S}/r.guard", "-d", "{S}/d.json", "-o", "json", "-v"], ""),
+                                     ("print-json", ["validate", "-r", "{S}/r.guard", "-d", "{S}/d.json", "-p", "-S", "none"], ""),
+                                     ("payload-structured-junit", ["validate", "--payload", "--structured", "-S", "none", "-o", "junit"], json.dumps({"rules": [text], "data": [docs]}))):
+                r = ctx.w.run({"k": "cli", "argv": argv, "files": fl, "stdin": stdin})
+                ctx.res.cases += 1
+                if core.crash_signature(r):
+                    ctx.inconclusive("crash")
+                    continue
+                ctx.res.distinct.add(("error-run", cfg, r.get("code")))
+                if r.get("code") != base.get("code"):
+                    ctx.violation("%s:exit-on-evaluation-error" % cfg, "the evaluation ends in an error: structured JSON exits %s, %s exits %s" % (base.get("code"), cfg, r.get("code")),
+                                  {"rules": text, "data": docs, "cfg": cfg})
             return
         try:
             brep = json.loads(base["out"])[0]
